@@ -3,6 +3,7 @@
 # in seeded/<id>/result.json. Never run two of these (or anything else that edits /repo) at the same time.
 set -u
 cd /verif
+export VERIF_EVIDENCE_DIR=/verif/build/tmp/evidence-mutated
 ids=("$@"); [ ${#ids[@]} -eq 0 ] && ids=($(ls seeded))
 for id in "${ids[@]}"; do
   d="seeded/$id"; prop="${id%%-*}"
